@@ -28,6 +28,7 @@ class State:
         self.path = []        # branch labels
         self.facts = {}       # misc per-path bookkeeping (spec-level), copied shallowly
         self._next = [0]      # shared allocator for rids / fids
+        self.closed_defs = 0  # number of pc entries that are closed definitions (allowed inside quantifier bodies)
 
     def copy(self):
         s = State.__new__(State)
@@ -40,6 +41,7 @@ class State:
         s.path = list(self.path)
         s.facts = dict(self.facts)
         s._next = self._next
+        s.closed_defs = self.closed_defs
         return s
 
     # -- allocation -------------------------------------------------------
@@ -77,6 +79,11 @@ class State:
         if z3.is_true(z):
             return
         self.pc.append((z, qf))
+
+    def assume_closed(self, z, qf=True):
+        """a definitional fact about fresh symbols that mentions no bound variable."""
+        self.pc.append((z, qf))
+        self.closed_defs += 1
 
     def snapshot(self, label):
         self.snaps[label] = ({k: dict(v) for k, v in self.frames.items()}, dict(self.heap), dict(self.ghost))
